@@ -17,11 +17,13 @@ place=$(head -5 "$demo" | grep -o 'place in: *<repo>[^ ]*' | head -1 | sed 's/pl
 [ -n "$place" ] || place="/"
 pkgdir="$wt$place"
 run() { (cd "$wt" && unshare -rn sh -c 'ip link set lo up; exec "$@"' sh "$@"); }
+# demonstrations of data races need the race detector (stated in their notes)
+race=""; grep -qs -- '-race' "$src/notes.md" "$demo" && race="-race"
 cp "$demo" "$pkgdir/zz_seed_demo_test.go"
-clean_out=$(run go test -vet=off -count=1 "./${place#/}" 2>&1); clean_rc=$?
+clean_out=$(run go test $race -vet=off -count=1 "./${place#/}" 2>&1); clean_rc=$?
 if ! (cd "$wt" && (git apply --whitespace=nowarn "$src/patch.diff" 2>/dev/null || git apply -3 --whitespace=nowarn "$src/patch.diff" 2>/dev/null || patch -p1 -s < "$src/patch.diff")); then echo "$name: PATCH DOES NOT APPLY to current /repo HEAD"; exit 3; fi
 (cd "$wt" && go build ./... 2>&1) || { echo "$name: does not build"; exit 4; }
-mut_out=$(run go test -vet=off -count=1 "./${place#/}" 2>&1); mut_rc=$?
+mut_out=$(run go test $race -vet=off -count=1 "./${place#/}" 2>&1); mut_rc=$?
 rm -f "$pkgdir/zz_seed_demo_test.go"
 suite_out=$(run go test -vet=off -count=1 ./... 2>&1); suite_rc=$?
 echo "$name: demo-on-clean rc=$clean_rc, demo-on-mutant rc=$mut_rc, suite-on-mutant rc=$suite_rc"
